@@ -68,7 +68,8 @@ def poly_of(e, keys, symbols):
     if k.startswith('n:'):
         return Poly.const(int(k[2:]))
     if k in symbols:
-        return Poly.sym(symbols[k])
+        v = symbols[k]
+        return v if isinstance(v, Poly) else Poly.sym(v)
     if x.get('kind') == 'BinaryOperator' and x.get('opcode') in ('+', '-', '*'):
         a = poly_of(kids(x)[0], keys, symbols)
         b = poly_of(kids(x)[1], keys, symbols)
@@ -76,3 +77,49 @@ def poly_of(e, keys, symbols):
             return None
         return a + b if x['opcode'] == '+' else a - b if x['opcode'] == '-' else a * b
     return None
+
+
+def poly_of_function(fn, keys, symbols):
+    """Polynomial returned by a function whose body is straight-line code over integer locals
+    (declarations with initialisers, =, +=, -=, *=, one return); None if it is anything else."""
+    from .expr import peel
+    from .frontend import kids, body_of
+    env = dict(symbols)
+    body = body_of(fn)
+    if body is None:
+        return None
+    result = None
+    for s in kids(body):
+        k = s.get('kind')
+        if result is not None:
+            return None                     # code after the return
+        if k == 'DeclStmt':
+            for d in kids(s):
+                if d.get('kind') != 'VarDecl':
+                    return None
+                ks = [c for c in kids(d) if not c.get('kind', '').endswith('Attr')]
+                if not ks:
+                    return None
+                p = poly_of(ks[-1], keys, env)
+                if p is None:
+                    return None
+                env['%s#%s' % (d.get('name'), d.get('id'))] = p
+        elif k in ('CompoundAssignOperator', 'BinaryOperator') and s.get('opcode') in ('=', '+=', '-=', '*='):
+            lhs, rhs = kids(s)
+            lk = keys.key(lhs)
+            p = poly_of(rhs, keys, env)
+            if p is None or (s['opcode'] != '=' and not isinstance(env.get(lk), Poly)) or peel(lhs).get('kind') != 'DeclRefExpr':
+                return None
+            env[lk] = p if s['opcode'] == '=' else env[lk] + p if s['opcode'] == '+=' else \
+                env[lk] - p if s['opcode'] == '-=' else env[lk] * p
+        elif k == 'ReturnStmt':
+            if not kids(s):
+                return None
+            result = poly_of(kids(s)[0], keys, env)
+            if result is None:
+                return None
+        elif k == 'NullStmt':
+            continue
+        else:
+            return None
+    return result
